@@ -100,3 +100,24 @@ def corpus_files(with_edits=False, max_bytes=None):
             for desc, ed in corpus.neighbourhood_edits(text):
                 for st in (False, True):
                     yield gen.cfg_index(0, st), ed, ("corpus-edit", rel, desc)
+
+
+BAD_UTF8 = {"lone-continuation": b"\x80", "truncated-2": b"\xc3", "truncated-3": b"\xe2\x82", "truncated-4": b"\xf0\x9f\x98",
+            "overlong": b"\xc0\xaf", "surrogate": b"\xed\xa0\x80", "ff": b"\xff", "latin1-word": b"caf\xe9", "utf16-bom": b"\xff\xfei\x00"}
+
+
+def invalid_utf8_files():
+    """Files that are not valid UTF-8 and also contain statements without a reference (bytes, not str): whatever Breadlog does
+    with them, it must not rewrite any byte that is not an inserted token."""
+    shapes = {
+        "in-comment": lambda b: b"// note: " + b + b"\nfn f() { info!(\"needs a ref\"); }\n",
+        "in-message": lambda b: b"fn f() { info!(\"msg " + b + b" end\"); warn!(\"second\"); }\n",
+        "in-other-literal": lambda b: b"const S: &[u8] = b\"" + b + b"\";\nfn f() { info!(\"needs a ref\"); }\n",
+        "at-start": lambda b: b + b"\nfn f() { info!(\"needs a ref\"); }\n",
+        "at-end": lambda b: b"fn f() { info!(\"needs a ref\"); }\n" + b,
+        "after-referenced": lambda b: b"fn f() { info!(\"[ref: 3] ok " + b + b"\"); info!(\"needs\"); }\n",
+    }
+    for bname, b in BAD_UTF8.items():
+        for sname, mk in shapes.items():
+            for st in (False, True):
+                yield gen.cfg_index(0, st), mk(b), ("invalid-utf8", bname, sname)
